@@ -33,7 +33,10 @@ META = dict(
          "staggered awaits) x propagate x ack type x how the Receiver comes to exist (built directly / worker command line / "
          "run_receiver_task / an InMemoryBroker fresh, started or restarted after shutdown, deliveries sent through its "
          "kick() or the task's kicker / the run_receiver_task coroutine running for the whole case over a scripted "
-         "listen() that fails 0-2 times, deliveries executed by the first, second or third Receiver it builds); non-trivial iff some execution opened >= 2 yielding dependencies, or a "
+         "listen() that fails 0-2 times, deliveries executed by the first, second or third Receiver it builds) x the object a "
+         "failing task function / failing dependency raises (ordinary; a ninth of the cases: falsy by __bool__ or __len__, "
+         "unhashable, equal by value, BaseException that is no Exception, exception groups, a falsy NoResultError subclass, "
+         "one object raised by several executions); non-trivial iff some execution opened >= 2 yielding dependencies, or a "
          "dependency failed while opening, or the body timed out; distinct by case content",
     trusted_base=["model: coq/theories/Deps.v (hand-written from taskiq/receiver/receiver.py run_task/callback and "
                   "taskiq_dependencies/ctx.py close/resolver)",
